@@ -47,6 +47,7 @@ impl<'t> Worker<'t> {
     /// Tokenizes the input sentence set in `state`,
     /// returning the result through `state`.
     pub fn tokenize(&mut self) {
+        self.top_nodes.clear();
         if self.sent.chars().is_empty() {
             return;
         }
